@@ -227,6 +227,10 @@ where
         // trigger_events for sake of batching remaining a safety mechanism for
         // integrators (NOTE how self.signal_pending is consumed here with
         // take())
+        #[cfg(maybenot_verif)]
+        if self.signal_pending.is_some() {
+            crate::verif::log(crate::verif::Rec::SignalRoundStart);
+        }
         if let Some(signal) = self.signal_pending.take() {
             // keep track of if we should exclude a machine
             let excluded = match signal {
@@ -375,6 +379,9 @@ where
             return StateChange::Unchanged;
         }
 
+        #[cfg(maybenot_verif)]
+        crate::verif::log(crate::verif::Rec::Deliver { mi, event });
+
         // sample next state
         // new block for immutable ref, makes things less ugly
         let next_state = {
@@ -394,11 +401,15 @@ where
                 // this is a state change (because we can never reach here if already in
                 // STATE_END, see first check above), but we don't cancel any pending
                 // action, nor schedule any new action
+                #[cfg(maybenot_verif)]
+                crate::verif::log(crate::verif::Rec::Ended { mi });
                 self.runtime[mi].current_state = STATE_END;
                 StateChange::Changed
             }
             STATE_SIGNAL => {
                 // this is not a state change, just signal *other* machines
+                #[cfg(maybenot_verif)]
+                crate::verif::log(crate::verif::Rec::Signalled { mi });
                 self.signal_pending = match self.signal_pending {
                     // no signal pending, so signal all *other* machines
                     None => Some(SignalTarget::AllExcept(mi)),
@@ -421,6 +432,12 @@ where
                     } else {
                         STATE_LIMIT_MAX
                     };
+                    #[cfg(maybenot_verif)]
+                    crate::verif::log(crate::verif::Rec::Entered {
+                        mi,
+                        state: next_state,
+                        limit: self.runtime[mi].state_limit,
+                    });
                 }
 
                 // update the counter, possible recursion: we need to update the
@@ -508,6 +525,15 @@ where
             }
         }
 
+        #[cfg(maybenot_verif)]
+        if state.counter.0.is_some() || state.counter.1.is_some() {
+            crate::verif::log(crate::verif::Rec::Counters {
+                mi,
+                old: (old_value_a, old_value_b),
+                new: (self.runtime[mi].counter_a, self.runtime[mi].counter_b),
+            });
+        }
+
         if any_counter_zeroed {
             let state_changed = self.transition(mi, Event::CounterZero);
             return (
@@ -555,17 +581,30 @@ where
             },
             None => None,
         };
+        #[cfg(maybenot_verif)]
+        crate::verif::log(crate::verif::Rec::Scheduled {
+            mi,
+            state,
+            some: self.actions[mi].is_some(),
+        });
     }
 
     fn decrement_limit(&mut self, mi: usize) {
         if self.runtime[mi].state_limit > 0 {
             self.runtime[mi].state_limit -= 1;
+            #[cfg(maybenot_verif)]
+            crate::verif::log(crate::verif::Rec::LimitDec {
+                mi,
+                limit: self.runtime[mi].state_limit,
+            });
         }
         let cs = self.runtime[mi].current_state;
 
         if let Some(action) = self.machines.as_ref()[mi].states[cs].action {
             if self.runtime[mi].state_limit == 0 && action.has_limit() {
                 // take no action and trigger limit reached
+                #[cfg(maybenot_verif)]
+                crate::verif::log(crate::verif::Rec::Withdrawn { mi });
                 self.actions[mi] = None;
                 // next, we trigger internally event LimitReached
                 self.transition(mi, Event::LimitReached);
@@ -680,6 +719,34 @@ where
 
         // only state-limit left to consider
         runtime.state_limit > 0
+    }
+}
+
+#[cfg(maybenot_verif)]
+impl<M, R, T> Framework<M, R, T>
+where
+    M: AsRef<[Machine]>,
+    R: RngCore,
+    T: crate::time::Instant,
+{
+    /// Verification hook: a copy of the property-level runtime state.
+    pub fn verif_snapshot(&self) -> crate::verif::Snapshot {
+        crate::verif::Snapshot {
+            machines: self
+                .runtime
+                .iter()
+                .map(|r| crate::verif::MachineSnapshot {
+                    current_state: r.current_state,
+                    state_limit: r.state_limit,
+                    counter_a: r.counter_a,
+                    counter_b: r.counter_b,
+                    padding_sent: r.padding_sent,
+                    normal_sent: r.normal_sent,
+                })
+                .collect(),
+            blocking_active: self.blocking_active,
+            signal_pending: self.signal_pending.is_some(),
+        }
     }
 }
 
